@@ -45,6 +45,7 @@ type script struct {
 	unspoolSleep time.Duration
 	iobuf        int  // 0: 64 bytes
 	writeErr     bool // writes after the peer closed may fail (chosen exhaustively)
+	hung         bool // the first incarnation never reads (4 KiB of socket buffer)
 }
 
 func line() step                  { return step{kind: "line"} }
@@ -72,6 +73,11 @@ var scripts = []script{
 	// S5: tiny io buffer (every line reaches the socket at once); a write after the peer closed may be
 	// accepted and lost or fail with a broken pipe
 	{name: "S5 peer-close write-errors", startUp: true, iobuf: 8, writeErr: true, steps: seq(s(line(), ev("peerclose"), line(), line(), maybe(sec(2.5)), line()))},
+	// S6: the endpoint accepts but never reads (everything stays in flight), outlives one keepSafe
+	// rotation (10 s) with traffic before and after it, then dies; a healthy endpoint takes over.
+	// keepSafe must hand both generations to the spool
+	{name: "S6 hung-endpoint-dies-after-rotation", startUp: true, hung: true,
+		steps: seq(s(line(), line(), sleep(sec(10.5)), line(), ev("peerclose"), ev("healthy"), maybe(sec(1.1)), line()))},
 	// S4: outage while the backlog is being unspooled
 	{name: "S4 outage-while-unspooling", startUp: false, unspoolSleep: 700 * time.Millisecond,
 		steps: seq(s(line(), line(), line(), line(), ev("up"), sleep(sec(3.2)), ev("peerclose"), maybe(sec(0.4)), line()))},
@@ -87,6 +93,9 @@ type exec struct {
 
 func (e *exec) Body() {
 	e.net = &destharn.Net{Up: e.sc.startUp, WriteErrChoice: e.sc.writeErr}
+	if e.sc.hung {
+		e.net.Mode, e.net.SockBuf = destharn.ReadNever, 4096
+	}
 	iobuf := 64
 	if e.sc.iobuf > 0 {
 		iobuf = e.sc.iobuf
@@ -119,6 +128,8 @@ func (e *exec) Body() {
 			e.net.Up = true
 		case "down":
 			e.net.Up = false
+		case "healthy":
+			e.net.Mode = destharn.ReadAll
 		case "peerclose":
 			if n := len(e.net.Conns); n > 0 {
 				e.net.Conns[n-1].ClosePeer()
